@@ -88,7 +88,8 @@ def one_recording(c, nsub, req, stem_in, stem_out, in_blocks, bpf_in, ncards, bl
     na, nc, npol, bits, T = c['nants'], c['nchans'], c['npol'], c['bits'], c['T']
     tag = 'nsub=%d request=%s' % (nsub, req)
     src = make_src(c, seed)
-    dig = [[SpyReal(target_fwhm=32, num_bits=8) for _ in range(npol)] for _ in range(na)]
+    # every stream has its own digitiser settings (the documented 2-D list form): the gain of a stream uses ITS digitiser's target
+    dig = [[SpyReal(target_fwhm=32 - 9 * (a_ * npol + p_), num_bits=8) for p_ in range(npol)] for a_ in range(na)]
     fbs = []
     lazy = c.get('lazy', False)
     for a in range(na):
